@@ -14,6 +14,7 @@ import (
 	"github.com/kubewharf/kubebrain/pkg/backend/tso"
 	"github.com/kubewharf/kubebrain/pkg/metrics"
 	"github.com/kubewharf/kubebrain/pkg/storage"
+	smetrics "github.com/kubewharf/kubebrain/pkg/storage/metrics"
 
 	proto "github.com/kubewharf/kubebrain-client/api/v2rpc"
 
@@ -26,8 +27,17 @@ var vNames = [][]byte{[]byte("/r/a"), []byte("/r/a/b"), []byte("/r/a-b"), []byte
 
 const vPrefix = "/r"
 
+// vStack is the storage stack the node runs on: the contract store itself, or (parameter
+// wrapper=1) the contract store behind the storage metrics wrapper, as with --enable-storage-metrics.
+func vStack(s *zzmodel.Store, metricCli metrics.Metrics) storage.KvStorage {
+	if zzverif.Param("wrapper", 0) == 1 {
+		return smetrics.NewKvStorage(s, metricCli)
+	}
+	return s
+}
+
 func vNewBackend(s *zzmodel.Store, base uint64, cache int) *backend {
-	b := NewBackend(s, Config{Prefix: vPrefix, EnableEtcdCompatibility: true, WatchCacheSize: cache}, zzmodel.NoMetrics{}).(*backend)
+	b := NewBackend(vStack(s, zzmodel.NoMetrics{}), Config{Prefix: vPrefix, EnableEtcdCompatibility: true, WatchCacheSize: cache}, zzmodel.NoMetrics{}).(*backend)
 	b.tso.Init(base)
 	return b
 }
@@ -43,7 +53,7 @@ func vNewBackendTSO(s *zzmodel.Store, base uint64, cache int, wrap func(tso.TSO)
 // emissions are scheduling points).
 func vNewBackendFull(s *zzmodel.Store, base uint64, cache int, wrap func(tso.TSO) tso.TSO, metricCli metrics.Metrics) *backend {
 	config := Config{Prefix: vPrefix, EnableEtcdCompatibility: true, WatchCacheSize: cache}
-	var kv storage.KvStorage = s
+	kv := vStack(s, metricCli)
 	config.complete()
 	normalCoder := coder.NewNormalCoder()
 	electionConfig := election.Config{Prefix: config.Prefix, Identity: config.Identity, Timeout: unaryRpcTimeout}
